@@ -178,10 +178,10 @@ func c06Rows(t *xt.T) [][]string {
 	return rows
 }
 
-func c06RowsT(rows [][]string) *xt.T   { return xt.List(xt.Strs, rows) }
-func c06BytesListT(l [][]byte) *xt.T   { return xt.List(xt.Bytes, l) }
-func c06U64sT(l []uint64) *xt.T        { return xt.List(xt.L, l) }
-func c06SameTree(a, b *xt.T) bool      { return a.String() == b.String() }
+func c06RowsT(rows [][]string) *xt.T { return xt.List(xt.Strs, rows) }
+func c06BytesListT(l [][]byte) *xt.T { return xt.List(xt.Bytes, l) }
+func c06U64sT(l []uint64) *xt.T      { return xt.List(xt.L, l) }
+func c06SameTree(a, b *xt.T) bool    { return a.String() == b.String() }
 func c06Z(z int64) *xt.T {
 	if z < 0 {
 		return xt.N(xt.LI(1), xt.L(uint64(-z)))
@@ -857,6 +857,11 @@ func c06RunStore(c *xt.T) (*xt.T, Verdict) {
 	}
 	if len(keys) != len(distinct) {
 		vd.bad("key-count", "%d keys stored for %d distinct (kind, content) pairs", len(keys), len(distinct))
+	}
+	for want := range distinct {
+		if !s.Exist([]byte(want)) {
+			vd.bad("key-missing", "no entry under %q + meow hash %x of the saved content", want[:len(want)-16], want[len(want)-16:])
+		}
 	}
 	type entry struct {
 		flat          string
